@@ -5,6 +5,7 @@
 import CimbaModel.Sim.Basic
 import CimbaModel.Sim.S1Demo
 import CimbaModel.Sim.S1WaitRun
+import CimbaModel.Sim.S1SilentRun
 import CimbaModel.HashHeap.Orders
 
 namespace CimbaModel.Props.C09
@@ -319,5 +320,107 @@ theorem end_notifies_exactly_once {w : World} (h : WInv w) (p : Pid) (sig : Int)
 example : ((finishProc demoWaiting 0 7 true).proc 2).awaits = [.proc 0] ∧
     ((finishProc demoWaiting 0 7 true).proc 0).waiters = [] ∧
     np (finishProc demoWaiting 0 7 true) 2 = 1 := by decide
+
+/-! ### `end_silences`: the timers and wake-ups of a process die with it -/
+
+/-- **`Silent`**: every pending timer, process-end wake-up, preemption wake-up and resume event is addressed to a
+    process that is running -/
+theorem silent_iff (w : World) :
+    Silent w ↔ ∀ e ∈ w.ev.pending,
+      (e.item.a = aTime ∨ e.item.a = aProc ∨ e.item.a = aPreempt ∨ e.item.a = aResume) →
+        1 ≤ e.item.b ∧ (w.proc (e.item.b - 1)).status = .running := by
+  unfold Silent TgtRun silentAct
+  constructor
+  · intro h e he ha
+    exact h e he (by rcases ha with a | a | a | a <;> simp [a])
+  · intro h e he ha
+    exact h e he (by simp at ha; rcases ha with ((a | a) | a) | a <;> simp [a])
+
+theorem silent_init (w : World) (h : w.ev.pending = []) : Silent w := by
+  intro e he; rw [h] at he; cases he
+
+/-- **the four invariants together** (`HolderInv`, `WaitersInv`, `DeadRec`, `Silent`) are preserved by every
+    dispatched event, for every program and schedule -/
+theorem allInv_dispatch {w w' : World} (h : AllInv w) (hd : dispatch w = some w') : AllInv w' :=
+  allinv_dispatch h hd
+
+theorem allInv_runAll {w : World} (h : AllInv w) (fuel : Nat) : AllInv (runAll fuel w) := allinv_runAll fuel h
+
+/-- the end of a process keeps them -/
+theorem allInv_finishProc {w : World} (h : AllInv w) (p : Pid) (val : Int) (stopped : Bool) :
+    AllInv (finishProc w p val stopped) := allinv_finishProc h p val stopped
+
+/-- every command of a running process that awaits no process end keeps them -/
+theorem allInv_execCmd {w : World} (h : AllInv w) (p : Pid) (hp : p < w.procs.size)
+    (hrun : (w.proc p).status = .running) (hpa : w.pa p = []) (c : Cmd) : AllInv (execCmd w p c).1 :=
+  allinv_execCmd h p hp hrun hpa c
+
+/-- **`end_silences_partial`**.  Under the invariants, at every instant of every run: for a process that is not
+    running (in particular a finished one) no timer, no process-end wake-up, no preemption wake-up and no resume event
+    is pending — none of them fires after its end.
+
+    Full statement (task item 6, `DeadInv`): *no* event with subject `p+1` other than a start event is pending for a
+    finished `p`, and `guardEnqueued w g p = false` for every guard.  Not covered here: the event wake-ups (`aEvent`),
+    grants (`aRes`), condition wake-ups (`aCond`) and interrupts (`aIntr`, which the pool's mugging loop also uses):
+    their targets come from the event-waiter lists, the guards' waiting lists and the pools' holder lists, and showing
+    that a finished process is on none of these needs the registration invariants for those three registries
+    (the analogue of `WaitersInv`; see notes/S1.md). -/
+theorem end_silences_partial {w : World} (h : AllInv w) (p : Pid) (hp : (w.proc p).status ≠ .running) :
+    ∀ e ∈ w.ev.pending, e.item.b = p + 1 →
+      e.item.a ≠ aTime ∧ e.item.a ≠ aProc ∧ e.item.a ≠ aPreempt ∧ e.item.a ≠ aResume := by
+  intro e he hb
+  have := h.silent.none_for p hp e he hb
+  unfold silentAct at this
+  simp at this
+  exact ⟨this.1.1.1, this.1.1.2, this.1.2, this.2⟩
+
+/-- in particular right after the end of `p` (whoever ended it) -/
+theorem end_silences_at_end {w : World} (h : AllInv w) (p : Pid) (hp : p < w.procs.size) (val : Int) (stopped : Bool) :
+    ∀ e ∈ (finishProc w p val stopped).ev.pending, e.item.b = p + 1 →
+      e.item.a ≠ aTime ∧ e.item.a ≠ aProc ∧ e.item.a ≠ aPreempt ∧ e.item.a ≠ aResume :=
+  end_silences_partial (allinv_finishProc h p val stopped) p
+    (by rw [(finishProc_record w p hp val stopped).2.2.2.1]; decide)
+
+/-- non-vacuity: the demo world satisfies the four invariants, so they hold along all its runs -/
+example : AllInv demoWorld := by
+  have hproc : ∀ n, demoWorld.proc (n + 3) = {} := fun n => by simp [demoWorld, World.proc]
+  have hheld : ∀ p, (demoWorld.proc p).held = [] := by
+    intro p
+    match p with
+    | 0 => decide
+    | 1 => decide
+    | 2 => decide
+    | n + 3 => rw [hproc]
+  have haw : ∀ p, (demoWorld.proc p).awaits = [] := by
+    intro p
+    match p with
+    | 0 => decide
+    | 1 => decide
+    | 2 => decide
+    | n + 3 => rw [hproc]
+  have hwt : ∀ p, (demoWorld.proc p).waiters = [] := by
+    intro p
+    match p with
+    | 0 => decide
+    | 1 => decide
+    | 2 => decide
+    | n + 3 => rw [hproc]
+  have hbl : ∀ p, (demoWorld.proc p).blocked = none := by
+    intro p
+    match p with
+    | 0 => decide
+    | 1 => decide
+    | 2 => decide
+    | n + 3 => rw [hproc]
+  refine ⟨?_, ?_, ?_, silent_init _ rfl⟩
+  · intro r p
+    have hc : demoWorld.hcount p r = 0 := by unfold World.hcount; rw [hheld]; rfl
+    have hh : demoWorld.holder r = none := by
+      match r with
+      | 0 => decide
+      | n + 1 => exact holder_none_of_no_res _ _ (by simp [demoWorld])
+    rw [hc, hh]; rfl
+  · exact waitersInv_init _ hwt (fun q p => by rw [haw]; simp) (fun e he => by cases he)
+  · intro p _; exact ⟨haw p, hbl p, hheld p, fun _ => hwt p⟩
 
 end CimbaModel.Props.C09
